@@ -25,7 +25,8 @@ class U(dsl.Schema):
 
 STATEMENTS = ['proj', 'filt:1', 'filt:5', 'ord', 'join', 'agg', 'filt2:1', 'filt2:5', 'ref:1', 'ref:5', 'selfjoin',
               'filt:-1', 'filt:-2',  # hash(-1) == hash(-2) in CPython: literals that differ while their hashes do not
-              'union', 'diff', 'setnest']  # set operations; the nested one only on engines that take nested operands
+              'union', 'diff', 'setnest',  # set operations; the nested one only on engines that take nested operands
+              'refunion']  # one reference NAME used for two different tables in the two operands of a set operation
 NESTED_SETS_UNSUPPORTED = ('sql',)  # SQLite refuses parenthesised compound operands (an engine limit, not forml's)
 P = T.reference('p')  # an explicitly named reference shared by several statements
 
@@ -49,6 +50,9 @@ def statement(sid: str) -> dsl.Statement:
         return ref.select(ref.a, ref.b).where(ref.b > int(sid[4:]))
     if sid == 'selfjoin':
         return T.inner_join(P, T.a == P.a).select(T.a, P.b)
+    if sid == 'refunion':
+        left, right = T.reference('o'), U.reference('o')  # a reference name is local to its (sub)statement
+        return left.select(left.a).where(left.b > 2).union(right.select(right.a))
     if sid in ('union', 'diff', 'setnest'):
         every, some, few = T.select(T.a), T.select(T.a).where(T.b > 2), T.select(T.a).where(T.b > 5)
         if sid == 'union':
@@ -64,11 +68,19 @@ def ordered(sid: str) -> bool:
 
 
 def tables(sid: str) -> tuple:
-    return ('T', 'U') if sid == 'join' else ('T',)
+    return ('T', 'U') if sid in ('join', 'refunion') else ('T',)
 
 
-def write_sqlite(path: str, content: dict, suffix: str = '', drop_only: bool = False) -> None:
+def write_sqlite(path: str, content: dict, suffix: str = '', drop_only: bool = False, aside: bool = False) -> None:
     """(Re)write the tables t<suffix>/u<suffix> of the database file (other tables of the file are kept)."""
+    target = None
+    if aside and os.path.exists(path):
+        # the crash-safe way to republish a database file: a copy is changed aside and renamed over the path (new
+        # inode - whoever still holds the old file open keeps reading the old content)
+        import shutil  # pylint: disable=import-outside-toplevel
+
+        target, path = path, path + '.new'
+        shutil.copyfile(target, path)
     con = sqlite3.connect(path)
     con.execute(f'drop table if exists t{suffix}')
     con.execute(f'drop table if exists u{suffix}')
@@ -82,6 +94,8 @@ def write_sqlite(path: str, content: dict, suffix: str = '', drop_only: bool = F
     con.executemany(f'insert into u{suffix} values (?, ?)', content['U'])
     con.commit()
     con.close()
+    if target:
+        os.replace(path, target)
 
 
 def write_csv(prefix: str, content: dict) -> None:
@@ -131,6 +145,8 @@ def evaluate(sid: str, content: dict) -> list:
         out = [[a, b] for a, b, c in trows if b > k]
     elif sid == 'selfjoin':
         out = [[a, b2] for a, b, c in trows for a2, b2, c2 in trows if a == a2]
+    elif sid == 'refunion':
+        out = [[a] for a in {a for a, b, c in trows if b > 2} | {ua for ua, d in urows}]
     elif sid in ('union', 'diff', 'setnest'):
         every = {a for a, b, c in trows}
         some = {a for a, b, c in trows if b > 2}
